@@ -254,6 +254,9 @@ func enumPaths(rec *ev.Rec, known *kf.File, maxDepth, shard, shards int) (int, b
 				continue
 			}
 			c := PathCase{Val: z, Bind: b, Steps: append([]Step(nil), steps...)}
+			if n%3 == 0 && hasBracketStep(steps) {
+				c.Mal = []int{n / 3} // a malformed variant of this very path right before it
+			}
 			nt, cls := classifyPath(c)
 			if !run.Each(rec, "pathenum", c, nt, cls, checkPath) {
 				return false
@@ -660,6 +663,11 @@ func genPathCase(t *rapid.T, rec *ev.Rec, known *kf.File) PathCase {
 		// twins of the keys on the path (present or not) are resolved first, mostly
 		if partners := partnerPaths(c.Steps, 2); len(partners) > 0 && rapid.IntRange(0, 9).Draw(t, "partner") < 8 {
 			c.Pre = partners
+		}
+		if hasBracketStep(c.Steps) && rapid.IntRange(0, 9).Draw(t, "mal") < 4 {
+			for i, n := 0, rapid.IntRange(1, 2).Draw(t, "nmal"); i < n; i++ {
+				c.Mal = append(c.Mal, rapid.IntRange(0, malVariants-1).Draw(t, "malv"))
+			}
 		}
 	}
 	return c
